@@ -358,6 +358,49 @@ example : ((Alerts.run ⟨1, false⟩ (Alerts.init [5, 6, 7] 1)
     [0, 0, 0, 0, 0, 0, 0, 0, 1, 0, 0, 0, 0, 1, 1, 1, 1, 1]).readers 0).outs = [[0, 7]] := by
   decide
 
+/-! ## 3'. status and error text of one operation (finding K18a) -/
+
+/-- read in ONE critical section, the (phase, error) pair is always a pair the writer wrote -/
+theorem pair_read_atomic (sched : List Bool) :
+    (PairRead.run false sched).gotPhase = (PairRead.run false sched).gotErr := by
+  have key : ∀ (sched : List Bool) (s : PairRead.St), s.phase = s.err → s.gotPhase = s.gotErr →
+      (sched.foldl (PairRead.step false) s).gotPhase = (sched.foldl (PairRead.step false) s).gotErr := by
+    intro sched
+    induction sched with
+    | nil => intro s _ h; exact h
+    | cons b bs ih =>
+      intro s h1 h2
+      simp only [List.foldl_cons]
+      apply ih
+      · cases b with
+        | true => simp [PairRead.step]
+        | false =>
+          simp only [PairRead.step]
+          cases hp : s.gotPhase with
+          | none => simpa using h1
+          | some v =>
+            simp only
+            cases he : s.gotErr with
+            | none => simpa using h1
+            | some w => simpa using h1
+      · cases b with
+        | true => simpa [PairRead.step] using h2
+        | false =>
+          simp only [PairRead.step]
+          cases hp : s.gotPhase with
+          | none => simp [h1]
+          | some v =>
+            simp only
+            cases he : s.gotErr with
+            | none => rw [hp, he] at h2; cases h2
+            | some w => simp only; rw [hp, he]; rw [hp, he] at h2; exact h2
+  exact key sched {} rfl rfl
+
+/-- REFUTED for the code as it is (two critical sections): the writer's section in between gives
+the old phase with the new error text — a `pinning` PinInfo carrying the failure's message -/
+example : ((PairRead.run true [false, true, false]).gotPhase, (PairRead.run true [false, true, false]).gotErr)
+    = (some 0, some 1) := by decide
+
 /-! ## 4. today's sources: the regenerated lock-fact table -/
 
 /-- every recorded access to a designated field holds its designated lock (writes exclusively),
@@ -395,9 +438,13 @@ theorem list_clauses_iff (i : Input) (l : List Nat) :
     holds i (.list l) = true ↔ (0 ∉ l ∧ l.Nodup) := by
   simp [holds, clauses, noEmpty, nodupB_iff]
 
+theorem pininfo_clauses_iff (i : Input) (st : String) (e : Bool) :
+    holds i (.pininfo st e) = true ↔ (e = true → errorStatus st = true) := by
+  cases e <;> simp [holds, clauses]
+
 theorem summary_clauses_iff (i : Input) (ops torn panics stalled races : Nat) :
     holds i (.summary ops torn panics stalled races) = true ↔ (races = 0 ∧ panics = 0 ∧ stalled = 0 ∧ torn = 0) := by
-  simp [holds, clauses, and_assoc]
+  simp [holds, clauses]
 
 /-- what the model of the alert log allows satisfies the clauses (for the driver's `allowed`) -/
 theorem descFrom_good (hi n : Nat) (h : n ≤ hi) : 0 ∉ descFrom hi n ∧ (descFrom hi n).Nodup := by
